@@ -13,6 +13,7 @@ CONSTANTS
   MaxProgress = TRUE
   FixDrain = TRUE
   FixDrop = FALSE
+  AllowDown = FALSE
   MaxNextId = 0
 INVARIANTS NoStuckAtEnd
 
